@@ -4,6 +4,7 @@ import (
 	"bufio"
 	"encoding/json"
 	"fmt"
+	"go.1password.io/spg"
 	"os"
 	"os/exec"
 	"path/filepath"
@@ -386,6 +387,10 @@ func workerMain(def *CheckDef, tier string, w, W int, out string) int {
 	seed := tierSeed(tier)
 	st := newStats()
 	n := def.Episodes[tier]
+	if tr := canaryTrouble(def); tr != "" {
+		st.Trouble = append(st.Trouble, tr)
+		n = 0
+	}
 	maxViol := 3
 	for i := w; i < n; i += W {
 		eseed := mix(seed, def.ID, i)
@@ -576,7 +581,16 @@ func parentMain(def *CheckDef, tier string) int {
 			return 2
 		}
 	}
+	parentCanary := ""
 	if def.ParentExtra != nil {
+		installOnce()
+		installOrderHooks()
+		parentCanary = canaryTrouble(def)
+		if parentCanary != "" {
+			total.Trouble = append(total.Trouble, parentCanary)
+		}
+	}
+	if def.ParentExtra != nil && parentCanary == "" {
 		c := &Ctx{st: total, tier: tier, seed: seed, property: def.ID, scratch: scratch}
 		func() {
 			defer func() {
@@ -588,8 +602,12 @@ func parentMain(def *CheckDef, tier string) int {
 		}()
 		total.Violations = append(total.Violations, c.violations...)
 	}
+	seenTrouble := map[string]bool{}
 	for _, t := range total.Trouble {
-		fmt.Println("TROUBLE:", t)
+		if !seenTrouble[t] {
+			fmt.Println("TROUBLE:", t)
+			seenTrouble[t] = true
+		}
 		trouble = true
 	}
 	// classify violations
@@ -814,7 +832,11 @@ func replayMain(path string) int {
 	installOrderHooks()
 	st := newStats()
 	var vs []Violation
-	trouble := ""
+	trouble := canaryTrouble(def)
+	if trouble != "" {
+		fmt.Fprintln(capt.realOut, "TROUBLE:", trouble)
+		return 2
+	}
 	if rf.Prefix != nil {
 		px := rf.Prefix
 		for i := px.From; i <= px.Episode; i += px.Workers {
@@ -854,4 +876,52 @@ func replayMain(path string) int {
 	}
 	fmt.Fprintln(out, "replay: no violation of the recorded class reproduced")
 	return 0
+}
+
+// hookCanary checks that the instrumentation hooks are actually reached by the code under test: a
+// two-character generation must announce its draws (H1) and pass its alphabet through the order
+// hook (H2); a word-list construction must pass its words through the order hook (H3) and ask for a
+// visit order (H4). A change that drops a hook call leaves the properties intact but blinds the
+// simulator; the checks then cannot decide anything and say so (exit 2) instead of judging
+// results they do not control.
+func hookCanary() []string {
+	var missing []string
+	saved := curOrders
+	defer func() { curOrders = saved }()
+	curOrders = OrderSpec{Chars: "sorted", Words: "sorted", Visit: "sorted"}
+	rec := spg.CharRecipe{Length: 2, AllowChars: "ab"}
+	t := NewTape(TapeSpec{Mode: "choice", Choices: []uint32{1, 0}, Default: "zero"})
+	res := genOp(t, &rec)
+	if res.Kind == "ok" {
+		if len(t.Draws) == 0 {
+			missing = append(missing, "H1 verifNoteDraw (bounded draws are not announced)")
+		}
+		if len(t.CharLists) == 0 {
+			missing = append(missing, "H2 verifOrderChars (the alphabet Generate draws from is not passed through the order hook)")
+		}
+	}
+	wBefore, vBefore := hookCalls.words, visitStats.constructions
+	m := mark()
+	wl, err := spg.NewWordList([]string{"b", "a", "A"})
+	_ = since(m)
+	if err == nil && wl != nil {
+		if hookCalls.words == wBefore {
+			missing = append(missing, "H3 verifOrderWords (the word slice of NewWordList is not passed through the order hook)")
+		}
+		if visitStats.constructions == vBefore {
+			missing = append(missing, "H4 verifVisitBegin (the twin-removal pass of NewWordList does not ask for a visit order)")
+		}
+	}
+	visitStats.twinBeforeLower, visitStats.twinAfterLower = 0, 0
+	return missing
+}
+
+func canaryTrouble(def *CheckDef) string {
+	if def.ID == "C12" {
+		return "" // Tokenize is driven directly, no hook involved
+	}
+	if miss := hookCanary(); len(miss) > 0 {
+		return "instrumentation hooks not reached by the code under test: " + strings.Join(miss, "; ") + " - the simulator does not own the draws / orders; cannot decide (this is not a verdict on the property)"
+	}
+	return ""
 }
